@@ -19,55 +19,79 @@ theorem post_append {m : Mode} {D : GEnv} (gρ : GEnv) (gv : GVal) (h : ∀ t, m
 
 theorem cexprTastTy_frag {env : Env} {file : AFile} {G : List String} {Γ : Ctx} {c : CExpr}
     (h : fragC env file G Γ c = true) : cexprTastTy env c = c.annTy := by
-  cases c <;> first | rfl | simp [fragC] at h
+  cases c <;> first | rfl | (simp [fragC] at h; done) | skip
+  rename_i e c idx ty
+  cases c with
+  | enum tn vn' vi => simp [fragC] at h
+  | struct sn =>
+    simp only [fragC, Bool.and_eq_true] at h
+    obtain ⟨_, hcase⟩ := h
+    simp only [cexprTastTy, CExpr.annTy]
+    cases hf : cgetField env e (.struct sn) idx with
+    | none => rw [hf] at hcase; simp at hcase
+    | some ft => rw [hf] at hcase; simp only at hcase; simp [scalarEq_eq hcase]
 
-theorem okPrim_scalar {p : Prim} {ty : Ty} (h : okPrim p ty = true) : scalarTy ty = true := by
+theorem scalar_flat {t : Ty} (h : scalarTy t = true) : flatTy t = true := by
+  cases t <;> simp [scalarTy] at h <;> rfl
+
+theorem okPrim_scalar {p : Prim} {ty : Ty} (h : okPrim p ty = true) : flatTy ty = true := by
   cases p <;> cases ty <;> simp [okPrim] at h <;> rfl
 
-theorem immOK_scalar {Γ : Ctx} {i : Imm} (h : immOK Γ i = true) : scalarTy i.ty = true := by
+theorem immOK_scalar {Γ : Ctx} {i : Imm} (h : immOK Γ i = true) : flatTy i.ty = true := by
   cases i with
   | var x ty =>
     simp only [immOK] at h
     cases hl : lookupTy Γ x with
     | none => rw [hl] at h; simp at h
-    | some t => rw [hl] at h; simp only at h; have := scalarEq_eq h; subst this; exact scalarEq_scalar h
+    | some t => rw [hl] at h; simp only at h; have := scalarEq_eq h; subst this; exact scalarEq_flat h
   | prim p ty => exact okPrim_scalar h
   | tag i t => simp [immOK] at h
 
-theorem scalarEq_scalar_right {a b : Ty} (h : scalarEq a b = true) : scalarTy b = true := by
-  have := scalarEq_eq h; subst this; exact scalarEq_scalar h
+theorem scalarEq_scalar_right {a b : Ty} (h : scalarEq a b = true) : flatTy b = true := by
+  have := scalarEq_eq h; subst this; exact scalarEq_flat h
 
 theorem fragC_scalar {env : Env} {file : AFile} {G : List String} {Γ : Ctx} {c : CExpr}
-    (h : fragC env file G Γ c = true) : scalarTy c.annTy = true := by
+    (h : fragC env file G Γ c = true) : flatTy c.annTy = true := by
   cases c with
   | imm i => exact immOK_scalar h
   | un op e ty =>
     simp only [fragC, Bool.and_eq_true] at h
-    cases op <;> simp only [unOK, Bool.and_eq_true] at h <;> exact scalarEq_scalar h.2.2
+    cases op <;> simp only [unOK, Bool.and_eq_true] at h <;> exact scalarEq_flat h.2.2
   | bin op l r ty =>
     simp only [fragC, binOK, Bool.and_eq_true] at h
-    exact scalarEq_scalar h.2.2
+    exact scalarEq_flat h.2.2
   | call f args ty =>
     cases f with
     | var name fty =>
       simp only [fragC, callOK, Bool.and_eq_true] at h
       obtain ⟨_, hcase⟩ := h
       cases hs : builtinSig name with
-      | some pr => rw [hs] at hcase; simp only [Bool.and_eq_true] at hcase; exact scalarEq_scalar hcase.2
+      | some pr => rw [hs] at hcase; simp only [Bool.and_eq_true] at hcase; exact scalarEq_flat hcase.2
       | none =>
         rw [hs] at hcase; simp only at hcase
         cases hf : file.find? (·.name == name) with
         | none => rw [hf] at hcase; simp at hcase
-        | some g => rw [hf] at hcase; simp only [Bool.and_eq_true] at hcase; exact scalarEq_scalar hcase.2
+        | some g => rw [hf] at hcase; simp only [Bool.and_eq_true] at hcase; exact scalarEq_flat hcase.2
     | prim p t => simp [fragC, callOK] at h
     | tag i t => simp [fragC, callOK] at h
   | ite c t e ty => simp only [fragC, Bool.and_eq_true] at h; exact scalarEq_scalar_right h.1.2
-  | «while» c b ty => simp only [fragC, Bool.and_eq_true] at h; exact scalarEq_scalar h.2
+  | «while» c b ty => simp only [fragC, Bool.and_eq_true] at h; exact scalarEq_flat h.2
   | matchE s arms d ty => simp [fragC] at h
-  | constr c args ty => simp [fragC] at h
+  | constr c args ty =>
+    cases c with
+    | enum tn vn' vi => simp [fragC] at h
+    | struct sn => simp only [fragC, Bool.and_eq_true] at h; exact scalarEq_flat h.1.1
   | tuple items ty => simp [fragC] at h
   | array items ty => simp [fragC] at h
-  | cget e c idx ty => simp [fragC] at h
+  | cget e c idx ty =>
+    cases c with
+    | enum tn vn' vi => simp [fragC] at h
+    | struct sn =>
+      simp only [fragC, Bool.and_eq_true] at h
+      obtain ⟨_, hcase⟩ := h
+      cases hf : cgetField env e (.struct sn) idx with
+      | none => rw [hf] at hcase; simp at hcase
+      | some ft => rw [hf] at hcase; simp only at hcase; exact scalarEq_flat hcase
   | toDyn tr forTy e ty => simp [fragC] at h
   | dynCall tr m recv args ty => simp [fragC] at h
   | go e ty => simp [fragC] at h
@@ -88,10 +112,10 @@ theorem let_body {env : Env} {file : AFile} {G : List String} {P : Prog} {F : GF
     (hpre : BlockS F gρ gw (.varDecl (vn x) T init :: d1) (.ok (D1 ++ (vn x, gv) :: gρ, .normal) gw1))
     (hD1 : ∀ y, y ∈ keys D1 → y ∈ allDecls d1)
     (hinv : GInv Bad ((.varDecl (vn x) T init :: d1) ++ (compileA env m st2 body).1) gρ)
-    (hrel : EnvRel Γ ρ gρ) (h3 : toG vv = some gv) (h4 : HasTy vv tx) (hw1 : WRel w1 gw1)
+    (hrel : EnvRel env Γ ρ gρ) (h3 : toGV env vv = some gv) (h4 : HasTy env vv tx) (hw1 : WRel w1 gw1)
     (hfb : fragA env file G ((x, tx) :: Γ) body = true) (htgt : TgtOK m Γ gρ (aTy body)) (hus : "_" ∈ Bad)
     (hcal : ∀ c, c ∈ calleesA body → vn c ∈ Bad) :
-    Concl F ((.varDecl (vn x) T init :: d1) ++ (compileA env m st2 body).1) m gρ gw (aTy body)
+    Concl env F ((.varDecl (vn x) T init :: d1) ++ (compileA env m st2 body).1) m gρ gw (aTy body)
       (Sem.eval n P ((x, vv) :: ρ) w1 body.toExpr) := by
   have hdecls : allDecls ((GStmt.varDecl (vn x) T init :: d1) ++ (compileA env m st2 body).1) =
       vn x :: (allDecls d1 ++ allDecls (compileA env m st2 body).1) := by
@@ -103,7 +127,7 @@ theorem let_body {env : Env} {file : AFile} {G : List String} {P : Prog} {F : GF
     hinv.disj y (by rw [hdecls]; exact List.mem_cons_of_mem _ (List.mem_append_left _ (hD1 y hy)))
   have hD1x : ¬ vn x ∈ keys D1 := fun h => hxnot (List.mem_append_left _ (hD1 _ h))
   -- environments after the prefix
-  have hrel2 : EnvRel ((x, tx) :: Γ) ((x, vv) :: ρ) (D1 ++ (vn x, gv) :: gρ) := by
+  have hrel2 : EnvRel env ((x, tx) :: Γ) ((x, vv) :: ρ) (D1 ++ (vn x, gv) :: gρ) := by
     refine (hrel.cons hfresh h3 h4).go_agree (fun y ty hy => lookup_append_right ?_ _)
     obtain ⟨_, _, _, h2, _, _⟩ := (hrel.cons hfresh h3 h4).1 y ty hy
     have hk := key_of_lookup_some h2
@@ -192,11 +216,11 @@ theorem stepA {env : Env} {file : AFile} {G : List String} {P : Prog} {F : GFile
         rw [allDecls_append, allDecls_varDecl]; rfl
       have hfresh : ¬ vn x ∈ keys gρ := hinv.disj _ (by rw [hdecls]; exact List.mem_cons_self)
       have hvd : StmtS F gρ gw (.varDecl (vn x) (goTy v.annTy) none) (.ok ((vn x, zero F (goTy v.annTy)) :: gρ, .normal) gw) :=
-        stmt_varDecl_none (scalar_not_absurd hsc)
+        stmt_varDecl_none (flat_not_absurd hsc)
       have hne : ∀ y ty, lookupTy Γ y = some ty → vn y ≠ vn x := fun y ty hy e => by
         obtain ⟨_, _, _, h2, _, _⟩ := hrel.1 y ty hy
         exact hfresh (e ▸ key_of_lookup_some h2)
-      have hrel1 : EnvRel Γ ρ ((vn x, zero F (goTy v.annTy)) :: gρ) :=
+      have hrel1 : EnvRel env Γ ρ ((vn x, zero F (goTy v.annTy)) :: gρ) :=
         hrel.go_agree (fun y ty hy => lookup_cons_ne _ _ (fun e => hne y ty hy e.symm))
       have hinvd : GInv Bad d.1 ((vn x, zero F (goTy v.annTy)) :: gρ) := by
         have h1 := GInv.right (a := [GStmt.varDecl (vn x) (goTy v.annTy) none]) (b := d.1 ++ (compileA env m d.2 body).1)
@@ -240,7 +264,7 @@ theorem stepA {env : Env} {file : AFile} {G : List String} {P : Prog} {F : GFile
         rintro ⟨gv, gw1, he, h3, h4, h5⟩
         simp only
         have hvd : StmtS F gρ gw (.varDecl (vn x) (goTy v.annTy) (some (compileCExpr env v)))
-            (.ok ((vn x, gv) :: gρ, .normal) gw1) := stmt_varDecl_some (scalar_not_absurd hsc) he
+            (.ok ((vn x, gv) :: gρ, .normal) gw1) := stmt_varDecl_some (flat_not_absurd hsc) he
         exact let_body ha m st1 x v.annTy body Γ ρ gρ gw Bad _ _ [] [] vv gv w1 gw1 (block_cons hvd block_nil)
           (fun y hy => by cases hy) hinv hrel h3 h4 h5 hfb htgt hus hcalb
       | fail fl w1 =>
@@ -248,7 +272,7 @@ theorem stepA {env : Env} {file : AFile} {G : List String} {P : Prog} {F : GFile
         | panic k =>
           rintro ⟨gw1, he, h5⟩
           simp only
-          exact ⟨gw1, block_cons_fail (stmt_varDecl_fail (scalar_not_absurd hsc) he), h5⟩
+          exact ⟨gw1, block_cons_fail (stmt_varDecl_fail (flat_not_absurd hsc) he), h5⟩
         | fuel => intro _; trivial
         | stuck s => intro _; trivial
 
@@ -276,12 +300,12 @@ theorem let_order {env : Env} {file : AFile} {G : List String} {P : Prog} {F : G
     (hv : SimV env file G P F n) (hc : SimC env file G P F n)
     (m : Mode) (st : St) (x : String) (v : CExpr) (body : AExpr) (ty : Ty) (Γ : Ctx) (ρ : Sem.Env) (w : World)
     (gρ : GEnv) (gw : GWorld) (Bad : List String)
-    (hfrag : fragA env file G Γ (.letE x v body ty) = true) (hrel : EnvRel Γ ρ gρ) (hw : WRel w gw)
+    (hfrag : fragA env file G Γ (.letE x v body ty) = true) (hrel : EnvRel env Γ ρ gρ) (hw : WRel w gw)
     (hinv : GInv Bad (compileA env m st (.letE x v body ty)).1 gρ) (hus : "_" ∈ Bad)
     (hcal : ∀ c, c ∈ calleesA (.letE x v body ty) → vn c ∈ Bad) :
     match Sem.eval n P ρ w v.toExpr with
     | .ok vv w1 => ∃ env1 gv gw1, BlockS F gρ gw (letPrefix env st x v) (.ok (env1, .normal) gw1) ∧ WRel w1 gw1 ∧
-        lookupG env1 (vn x) = some gv ∧ toG vv = some gv
+        lookupG env1 (vn x) = some gv ∧ toGV env vv = some gv
     | .fail (.panic k) w1 => ∀ rest, ∃ gw1, BlockS F gρ gw (letPrefix env st x v ++ rest) (.fail (.panic k) gw1) ∧ WRel w1 gw1
     | _ => True := by
   simp only [fragA, Bool.and_eq_true] at hfrag
@@ -296,11 +320,11 @@ theorem let_order {env : Env} {file : AFile} {G : List String} {P : Prog} {F : G
     generalize hd : compileTail env (.assign (rn x)) (st.check (okTy (cexprTastTy env v))) v = d at hinvP ⊢
     have hfresh : ¬ vn x ∈ Goml.Dce.keys gρ := hinvP.disj _ (by rw [allDecls_varDecl]; exact List.mem_cons_self)
     have hvd : StmtS F gρ gw (.varDecl (vn x) (goTy v.annTy) none) (.ok ((vn x, zero F (goTy v.annTy)) :: gρ, .normal) gw) :=
-      stmt_varDecl_none (scalar_not_absurd hsc)
+      stmt_varDecl_none (flat_not_absurd hsc)
     have hne : ∀ y ty, lookupTy Γ y = some ty → vn y ≠ vn x := fun y ty hy e => by
       obtain ⟨_, _, _, h2, _, _⟩ := hrel.1 y ty hy
       exact hfresh (e ▸ Goml.Dce.key_of_lookup_some h2)
-    have hrel1 : EnvRel Γ ρ ((vn x, zero F (goTy v.annTy)) :: gρ) :=
+    have hrel1 : EnvRel env Γ ρ ((vn x, zero F (goTy v.annTy)) :: gρ) :=
       hrel.go_agree (fun y ty hy => Goml.Dce.lookup_cons_ne _ _ (fun e => hne y ty hy e.symm))
     have hinvd : GInv Bad d.1 ((vn x, zero F (goTy v.annTy)) :: gρ) :=
       GInv.right (a := [GStmt.varDecl (vn x) (goTy v.annTy) none]) (b := d.1)
@@ -338,14 +362,14 @@ theorem let_order {env : Env} {file : AFile} {G : List String} {P : Prog} {F : G
     cases hres : Sem.eval n P ρ w v.toExpr with
     | ok vv w1 =>
       rintro ⟨gv, gw1, he, h3, h4, h5⟩
-      exact ⟨_, gv, gw1, block_cons (stmt_varDecl_some (scalar_not_absurd hsc) he) block_nil, h5,
+      exact ⟨_, gv, gw1, block_cons (stmt_varDecl_some (flat_not_absurd hsc) he) block_nil, h5,
         Goml.Dce.lookup_cons_self _ _ _, h3⟩
     | fail fl w1 =>
       cases fl with
       | panic k =>
         rintro ⟨gw1, he, h5⟩
         intro rest
-        exact ⟨gw1, block_cons_fail (stmt_varDecl_fail (scalar_not_absurd hsc) he), h5⟩
+        exact ⟨gw1, block_cons_fail (stmt_varDecl_fail (flat_not_absurd hsc) he), h5⟩
       | fuel => intro _; trivial
       | stuck s => intro _; trivial
 
